@@ -2798,7 +2798,8 @@ impl Translator {
                     self.collect_locals_stmt(statement, locals, mono);
                 }
             }
-            ExprKind::Match(_, arms) => {
+            ExprKind::Match(scrutinee, arms) => {
+                self.collect_locals_expr(scrutinee, locals, mono);
                 for arm in arms {
                     self.collect_locals_pat(&arm.pat, locals, mono);
                     self.collect_locals_stmt(&arm.stmt, locals, mono);
@@ -2884,7 +2885,8 @@ impl Translator {
                     self.collect_locals_pat(&pat.0, locals, mono);
                     self.collect_locals_expr(expr, locals, mono);
                 }
-                StmtKind::Assign(_, _, expr) => {
+                StmtKind::Assign(lhs, _, expr) => {
+                    self.collect_locals_expr(lhs, locals, mono);
                     self.collect_locals_expr(expr, locals, mono);
                 }
                 StmtKind::Continue | StmtKind::Break => {}
@@ -3028,7 +3030,8 @@ impl Translator {
                     self.collect_captures_stmt(statement, captures, mono);
                 }
             }
-            ExprKind::Match(_, arms) => {
+            ExprKind::Match(scrutinee, arms) => {
+                self.collect_captures_expr(scrutinee, captures, mono);
                 for arm in arms {
                     self.collect_captures_stmt(&arm.stmt, captures, mono);
                 }
@@ -3110,7 +3113,8 @@ impl Translator {
                 StmtKind::Let(_, _, expr) => {
                     self.collect_captures_expr(expr, locals, mono);
                 }
-                StmtKind::Assign(_, _, expr) => {
+                StmtKind::Assign(lhs, _, expr) => {
+                    self.collect_captures_expr(lhs, locals, mono);
                     self.collect_captures_expr(expr, locals, mono);
                 }
                 StmtKind::Continue | StmtKind::Break => {}
